@@ -92,8 +92,23 @@ pub fn plans(tier: Tier, inst: &Inst, have_ship: bool) -> Vec<Plan> {
             Some(o) if o.len() == 3 => (o[0], o[1], o[2]),
             _ => (p, s, f),
         };
-        Plan { build, cfg: rt::Config { p, s, f, model, ..rt::Config::default() }, split }
+        Plan { build, cfg: rt::Config { p, s, f, k: inst.k, model, ..rt::Config::default() }, split }
     };
+    let pk = if tier == Tier::Quick { &inst.pk_quick } else { &inst.pk_thorough };
+    if !pk.is_empty() {
+        let mut v = Vec::new();
+        for &(p, k) in pk {
+            let mut pl = mk("small", p, 0, 0, if p == 0 { 1 } else { 2 });
+            pl.cfg.k = k;
+            v.push(pl);
+            if tier == Tier::Thorough && have_ship {
+                let mut pl = mk("ship", p, 0, 0, 1);
+                pl.cfg.k = k;
+                v.push(pl);
+            }
+        }
+        return v;
+    }
     if let Some(p) = inst.p_with_k {
         // Families built on free atomic-call placements bring their own preemption bound (the
         // C08 adversary uses 0: only complete writes interrupt the thread under test).
@@ -242,12 +257,13 @@ pub fn run_prop(instances: &[Inst], o: &PropOpts) -> PropOutcome {
                 }
                 let m = shard::run_sharded(&name, &cfg, &so);
                 eprintln!(
-                    "  {:34} {:5} (p{},s{},f{}) execs={:9} nodes={:9} steps={:11} outcomes={:4} complete={} {:.1}s{}",
+                    "  {:34} {:5} (p{},s{},f{},k{}) execs={:9} nodes={:9} steps={:11} outcomes={:4} complete={} {:.1}s{}",
                     name,
                     build,
                     cfg.p,
                     cfg.s,
                     cfg.f,
+                    if cfg.k == rt::K_FROM_INSTANCE { "-".to_string() } else { cfg.k.to_string() },
                     m.executions,
                     m.nodes,
                     m.steps,
@@ -305,7 +321,7 @@ pub fn run_prop(instances: &[Inst], o: &PropOpts) -> PropOutcome {
                 "instance": inst.name,
                 "alphabet": inst.alphabet,
                 "build": plan.build,
-                "bounds": {"preemptions": plan.cfg.p, "stale_reads": plan.cfg.s, "spurious_cas_failures": plan.cfg.f, "model": shard::model_name(plan.cfg.model)},
+                "bounds": {"atomic_call_placements": plan.cfg.k, "preemptions": plan.cfg.p, "stale_reads": plan.cfg.s, "spurious_cas_failures": plan.cfg.f, "model": shard::model_name(plan.cfg.model)},
                 "executions": m.executions,
                 "choice_tree_nodes": m.nodes,
                 "engine_steps": m.steps,
